@@ -22,7 +22,15 @@ class Out:
         self.ncases = 0
         self.hist = {}
 
+    # with `--random-only` (extra seeds of an escalated run) only the cases that depend on the seed are
+    # kept: random sequences (tag r) and sweeps (tag w); the enumerated products are the same for every seed
+    random_only = False
+    skip = False
+
     def case(self, m0=0, m1=0, s0=0, s1=0, eq="lawful", tag="c"):
+        self.skip = self.random_only and tag not in ("r", "w")
+        if self.skip:
+            return
         self.ncases += 1
         self.nid = 0
         self.lines.append(f"case {tag}{self.ncases} m0={m0} m1={m1} s0={s0} s1={s1} eq={eq}")
@@ -39,6 +47,8 @@ class Out:
         return f"{i}#{val if val is not None else i % 7}"
 
     def op(self, line, test=False):
+        if self.skip:
+            return
         name = line.split()[1] if len(line.split()) > 1 else line
         self.hist[name] = self.hist.get(name, 0) + 1
         if test:
@@ -46,6 +56,8 @@ class Out:
         self.lines.append(line)
 
     def end(self):
+        if self.skip:
+            return
         self.lines.append("end")
 
 
@@ -560,7 +572,8 @@ def gen_C04_phase1(o, rng, tier):
               f"{reg} into_iter pairs 1 count", f"{reg} into_iter keys t1 drop", f"{reg} into_iter values t1 drop",
               f"{reg} into_iter keys 0 count", f"{reg} into_iter values 1 count", f"{reg} into_iter pairs tM drop",
               f"{reg} drain t1 drop", f"{reg} drain t2 drop", f"{reg} drain 0 count", f"{reg} drain t0 count",
-              f"{reg} drain tM drop"]
+              f"{reg} drain tM drop", f"{reg} into_iter pairs z drop", f"{reg} into_iter keys z drop",
+              f"{reg} into_iter values z drop", f"{reg} drain z drop"]
         for k in range(0, 4):
             for seq in itertools.islice(itertools.product(u[:3], repeat=k), 0, 12):
                 xs = ",".join(f"{{k{c}}}={{v}}" for c in seq)
@@ -591,7 +604,7 @@ def gen_C04_phase1(o, rng, tier):
                             "s0 is_disjoint s1", "s0 alg union s1 nnnn", "s0 alg symmetric_difference s1 df",
                             "s0 alg intersection s1 cnn", "s0 retain 5", "s0 clear", "s0 drain 1 drop",
                             "s0 drain t1 drop", "s0 drain 0 count", "s0 into_iter t1 drop", "s0 into_iter 1 count",
-                            "s0 into_iter tM drop"] +
+                            "s0 into_iter tM drop", "s0 into_iter z drop", "s0 drain z drop"] +
                            [f"s0 extend 1 [{{k{a}}},{{k{b}}}]" for a in u[:2] for b in u[:2]] +
                            [f"s0 from_iter 1 [{{k{a}}},{{k{b}}}]" for a in u[:2] for b in u[:2]] +
                            ([f"s0 from_iter 0 [{{k{a}}},{{k{b}}}]" for a in u[:2] for b in u[:2]] if nn == 2 else []) +
@@ -1410,6 +1423,7 @@ def main():
     prop, tier, seed, out = sys.argv[1], sys.argv[2], int(sys.argv[3]), sys.argv[4]
     rng = random.Random(f"{prop}-{seed}")
     o = Out()
+    o.random_only = "--random-only" in sys.argv
     if "--inject-from" in sys.argv:
         i = sys.argv.index("--inject-from")
         gen_C04_phase2(o, sys.argv[i + 1], sys.argv[i + 2])
